@@ -93,6 +93,10 @@ impl Condition {
         self.gv_weight = [1.0].repeat(nstream);
 
         /* spectrum */
+        // GAMMA and LN_GAIN have no setter: a voice that does not give them means the format's
+        // defaults, not whatever an earlier voice left behind.
+        self.stage = 0;
+        self.use_log_gain = false;
         for option in &voices.stream_metadata(0).option {
             let Some((key, value)) = option.split_once('=') else {
                 eprintln!("Skipped unrecognized option {}.", option);
